@@ -5,6 +5,8 @@ CONSTANTS
   P = 2
   Tau = 1
   MaxHalf = 16
+  GenMode = FALSE
+  GenDepth = 0
 CONSTRAINT Bound
 INVARIANT Envelope
 CHECK_DEADLOCK FALSE
